@@ -210,4 +210,55 @@ DistFailures(lo, hi, a, b) ==
   \cup (IF IsFinite(lo) /\ IsFinite(hi) /\ ValLessEq(lo, hi)
            /\ ~(\A i \in 1..Len(a) : InRangeStep(FromHalves(a[i]), lo, hi))
         THEN {"range"} ELSE {})
+
+\* ---------------------------------------------------------------------------------------
+\* distribution OBJECTS: abstract data types without abstract state
+\* ---------------------------------------------------------------------------------------
+\* A uniform_real_distribution<T> object has NO state besides (lower, upper): every draw is a function of lower, upper,
+\* the generator's min() / max() and the generator's next output only - not of earlier draws of the object, of the
+\* generator TYPE it served before, of how many draws came before, nor of whether the object is a copy of a used one.
+\* A pcg32_biased_float_distribution object owns its generator: its k-th draw is a function of (seed, sequence, lower,
+\* upper, k) only, and a copy continues the stream of its source.  (ScalarKernelsDistADT is the state machine; the
+\* operators below judge one recorded Draw.)
+\* generator types a distribution object may be handed: least output and max() - min(), on limbs
+GenNames == <<"pcg32", "mt19937_64", "minstd_rand", "ranlux24", "edge32", "mt19937">>
+GenMinL(g)  == IF g = "minstd_rand" THEN One ELSE Zero
+GenSpanL(g) == CASE g \in {"pcg32", "mt19937", "edge32"} -> Sub(Pow2L(32), One)
+                 [] g = "mt19937_64"  -> Sub(Pow2L(64), One)
+                 [] g = "minstd_rand" -> Sub(Pow2L(31), FromInt(3))      \* [1, 2^31 - 2]
+                 [] g = "ranlux24"    -> Sub(Pow2L(24), One)
+                 [] OTHER             -> Pow2L(32)                       \* "own": pcg32_biased scales its pcg32 output by 2^-32
+SameGenRange(g, h) == GenMinL(g) = GenMinL(h) /\ GenSpanL(g) = GenSpanL(h)
+
+\* The value of a draw, from the generator's raw output: the exact number is E = l + (raw - min) (u - l) / span.  A float
+\* evaluation rounds u - l, span, (u - l) / span, raw - min, the product and the sum (relative 2^-(MB+1) each: at most 7
+\* units of the magnitudes |l| + |u|, bounded here by 2^-relbits of them) and the quotient (u - l) / span may be rounded
+\* to a multiple of the denormal step (absolute error of half a step, multiplied by raw - min).  Decided without
+\* division:  | span (v - l) - (raw - min)(u - l) | <= span * bound.
+\* Stated when lower <= upper, min <= raw <= min + span, and no intermediate value can leave the finite range.
+DrawBoundV(lv, uv, rp, relbits, tiny) ==
+  SDAdd(SDScale(SDAdd(SDAbs(lv), SDAbs(uv)), 0 - relbits), SDMul(SDAdd(rp, SDInt(2)), tiny))
+DrawStatedV(lv, uv, minL, spanL, rawL, relbits, top) ==
+  /\ SDLessEq(lv, uv)
+  /\ LessEq(minL, rawL) /\ LessEq(Sub(rawL, minL), spanL)
+  /\ LET mag == SDAdd(SDAbs(lv), SDAbs(uv)) IN InRangeV(mag, SDScale(mag, 0 - relbits), top)
+DrawValueOkV(lv, uv, minL, spanL, rawL, vv, relbits, tiny) ==
+  LET rp   == SD(FALSE, Sub(rawL, minL), 0)
+      span == SD(FALSE, spanL, 0)
+      err  == SDAbs(SDSub(SDMul(span, SDSub(vv, lv)), SDMul(rp, SDSub(uv, lv))))
+      rel  == SDScale(SDAdd(SDAbs(lv), SDAbs(uv)), 0 - relbits)          \* the rounding part of the bound
+      und  == SDMul(SDAdd(rp, SDInt(2)), tiny)                           \* the underflow part of the bound
+  IN \* err <= span (rel + und); the parts are tried alone first: their sum aligns numbers up to 2000 binary digits apart
+     \/ SDLessEq(err, SDMul(span, rel))
+     \/ SDLessEq(err, SDMul(span, und))
+     \/ SDLessEq(err, SDMul(span, SDAdd(rel, und)))
+\* one rounding step of the magnitudes around [lower, upper] for a format with `ulpbits` fraction bits, at least one
+\* denormal step `tiny` (binary64 draws; the binary32 draws use InRangeStep on patterns)
+InRangeStepV(vv, lv, uv, ulpbits, tiny) ==
+  LET rel  == SDScale(SDAdd(SDAbs(lv), SDAbs(uv)), 0 - ulpbits)
+      step == IF SDLess(rel, tiny) THEN tiny ELSE rel
+  IN SDLessEq(SDSub(lv, step), vv) /\ SDLessEq(vv, SDAdd(uv, step))
+\* the quotient (upper - lower) / (max - min) lies below the normal range (it is rounded to a multiple of the denormal
+\* step: the class of a range finding, like upper - lower > FLT_MAX)
+QuotientDenormalV(lv, uv, spanL, minnormal) == SDLess(SDAbs(SDSub(uv, lv)), SDMul(SD(FALSE, spanL, 0), minnormal))
 ===============================================================================
